@@ -175,19 +175,6 @@ fn load_graph(path: &str) -> Graph {
     }
 }
 
-fn json_eq_loose(a: &Value, b: &Value) -> bool {
-    // TLC prints empty functions/sequences as [] ; objects vs arrays of emptiness are the same
-    match (a, b) {
-        (Value::Object(x), Value::Array(y)) | (Value::Array(y), Value::Object(x)) => x.is_empty() && y.is_empty(),
-        (Value::Object(x), Value::Object(y)) => {
-            x.len() == y.len() && x.iter().all(|(k, v)| y.get(k).map(|w| json_eq_loose(v, w)).unwrap_or(false))
-        }
-        (Value::Array(x), Value::Array(y)) => x.len() == y.len() && x.iter().zip(y).all(|(v, w)| json_eq_loose(v, w)),
-        (Value::Number(x), Value::Number(y)) => x.as_i64() == y.as_i64(),
-        _ => a == b,
-    }
-}
-
 struct WalkStats {
     histories: AtomicU64,
     ops: AtomicU64,
